@@ -248,17 +248,19 @@ class BSplines():
                 self._integrals[:] = dx
                 self._integrals[n:] = 0
             else:
-                self._integrals[d:-d] = dx
                 values = np.empty(d+2)
                 knots = np.linspace(xmin, xmin+dx*11, 12)
                 test_pt = xmin + 4*dx
                 span = nu_find_span(knots, 4, test_pt)
                 nu_basis_funs(knots, 4, test_pt, span, values)
 
-                for i in range(3):
-                    step = dx*(1 - sum(values[:3-i]))
-                    self._integrals[i] = step
-                    self._integrals[-i-1] = step
+                # values[k]*dx is the integral of a basis function over the
+                # k-th cell of its support. Sum over the cells which lie
+                # inside the domain (the support may cross both boundaries)
+                for i in range(n):
+                    first = max(0, d-i)
+                    last = min(d+1, self._ncells+d-i)
+                    self._integrals[i] = dx*sum(values[first:last])
         else:
             knots = np.array([self.knots[0], *self.knots, self.knots[-1]])
             values = np.empty(d+2)
